@@ -27,8 +27,8 @@ Broken(e, R) ==   \* the first clause of the demanded outcome R that the observe
   ELSE IF \E i \in 1 .. Len(e.hookargs) : e.hookargs[i] # o.hookarg THEN "hook.arg"
   ELSE IF e.cache # R.cache THEN "cache"
   ELSE IF \E m \in DOMAIN shape : \E a \in Params(m) : ~InDatainfo(shape[m][a].dt, e.cache[m][a]) THEN "cache.datainfo"
-  ELSE IF o.snap # Null /\ SeqSet(e.upd) # o.snap THEN "snapshot"       \* activate: exactly the snapshot updates
-  ELSE IF o.snap = Null /\ (IF o.upd = Null THEN e.upd # <<>> ELSE \E i \in 1 .. Len(e.upd) : e.upd[i] # o.upd) THEN "updates"
+  ELSE IF o.hassnap /\ SeqSet(e.upd) # o.snap THEN "snapshot"       \* activate: exactly the snapshot updates
+  ELSE IF ~o.hassnap /\ (IF o.upd = Null THEN e.upd # <<>> ELSE \E i \in 1 .. Len(e.upd) : e.upd[i] # o.upd) THEN "updates"
   ELSE ""
 
 TStep ==
